@@ -105,14 +105,19 @@ void splinetable<Alloc>::fit(const ::ndsparse& data,
 		                       +std::to_string(data.ndim)+")");
 	
 	//Initialize variables
+	//If anything from here on fails (allocation, or the fit itself) the table
+	//goes back to being empty instead of staying partially built.
+	storage_guard guard(this);
 	ndim=data.ndim;
 	order = allocate<uint32_t>(ndim);
 	std::copy(splineOrder.begin(),splineOrder.end(),order);
 	this->knots = allocate<double_ptr>(ndim);
+	std::fill(this->knots,this->knots+ndim,nullptr);
 	nknots = allocate<uint64_t>(ndim);
 	for(uint32_t i=0; i<ndim; i++)
 		nknots[i]=knots[i].size();
 	extents = allocate<double_ptr>(ndim);
+	extents[0] = nullptr;
 	extents[0] = allocate<double>(2*ndim);
 	naxes = allocate<uint64_t>(ndim);
 	for(uint32_t i=0; i<ndim; i++)
@@ -178,6 +183,7 @@ void splinetable<Alloc>::fit(const ::ndsparse& data,
 	cholmod_l_finish(&cholmod_state);
 	if(result!=0)
 		throw std::runtime_error("GLAM fit failed");
+	guard.dismiss();
 }
 	
 } //namespace photospline
